@@ -705,7 +705,8 @@ int run()
         double t_b = vx::elapsed();
         // probes (queries + serialization round trips) on every distinct state, in parallel
         std::atomic<bool> cut{false};
-        vx::par_for(fresh_states.size(), 16, [&](uint64_t lo, uint64_t hi, unsigned) {
+        // with violations already reported the manager is inconsistent and queries on it need not terminate
+        if (vx::rep().violations == 0) vx::par_for(fresh_states.size(), 16, [&](uint64_t lo, uint64_t hi, unsigned) {
             for (uint64_t i = lo; i < hi; i++) {
                 if (cut.load()) return;
                 if (vx::deadline_reached()) { cut = true; return; }
